@@ -725,6 +725,9 @@ func (e *explorer) eval(st *exState, v ssa.Value) symVal {
 		switch v.Op {
 		case token.MUL: // load
 			loc := e.addrExpr(st, v.X)
+			if cv, ok := e.c.roTableLookup(e.globalKey(st, v.X)); ok {
+				return symVal{abs: cv, expr: loc} // an element of a package-level table that only the initialiser writes
+			}
 			if m, ok := st.mem[loc]; ok {
 				return symVal{abs: m.abs, expr: loc, vexpr: m.v()} // value last stored on this path
 			}
@@ -1375,4 +1378,223 @@ func idKey(cond ssa.Value) string {
 		return ""
 	}
 	return "i:" + x + bo.Op.String() + y
+}
+
+// Read-only tables: a package-level array (of arrays) of integers or booleans that is written by the package
+// initialiser only and read everywhere else through constant or variable indices (`contribCond[clipType][fillRule]`)
+// is a function of its indices: with constant indices the explorer reads the initialiser's value.
+type roTables struct {
+	names map[string]bool
+	vals  map[string]absVal
+}
+
+func (c *Ctx) roTableLookup(loc string) (absVal, bool) {
+	i := strings.IndexByte(loc, '[')
+	if i <= 0 {
+		return absVal{}, false
+	}
+	t := c.readOnlyTables()
+	if !t.names[loc[:i]] {
+		return absVal{}, false
+	}
+	for _, part := range strings.Split(strings.TrimSuffix(loc[i+1:], "]"), "][") {
+		if part == "" {
+			return absVal{}, false
+		}
+		for k := 0; k < len(part); k++ {
+			if part[k] < '0' || part[k] > '9' {
+				return absVal{}, false // a variable index: not decided here
+			}
+		}
+	}
+	if v, ok := t.vals[loc]; ok {
+		return v, true
+	}
+	return intVal(0), true // an element the composite literal does not mention
+}
+
+func (c *Ctx) readOnlyTables() *roTables {
+	if c.roTabs != nil {
+		return c.roTabs
+	}
+	t := &roTables{names: map[string]bool{}, vals: map[string]absVal{}}
+	c.roTabs = t
+	cand := map[*ssa.Global]bool{}
+	for _, m := range c.spkg.Members {
+		g, ok := m.(*ssa.Global)
+		if !ok {
+			continue
+		}
+		ty := g.Type().(*types.Pointer).Elem().Underlying()
+		depth := 0
+		for {
+			arr, ok := ty.(*types.Array)
+			if !ok {
+				break
+			}
+			depth++
+			ty = arr.Elem().Underlying()
+		}
+		if bt, ok := ty.(*types.Basic); ok && depth > 0 && bt.Info()&(types.IsInteger|types.IsBoolean) != 0 {
+			cand[g] = true
+		}
+	}
+	// every use outside the initialiser is an element load
+	var elemLoadsOnly func(v ssa.Value) bool
+	elemLoadsOnly = func(v ssa.Value) bool {
+		refs := v.Referrers()
+		if refs == nil {
+			return true
+		}
+		for _, r := range *refs {
+			switch x := r.(type) {
+			case *ssa.IndexAddr:
+				if !elemLoadsOnly(x) {
+					return false
+				}
+			case *ssa.UnOp:
+				if x.Op != token.MUL {
+					return false
+				}
+				if _, isArr := x.Type().Underlying().(*types.Array); isArr {
+					return false // a whole row copied out: not followed
+				}
+			case *ssa.DebugRef:
+			default:
+				return false
+			}
+		}
+		return true
+	}
+	initFn := c.spkg.Func("init")
+	for _, f := range c.srcFuncs() {
+		if f == initFn {
+			continue
+		}
+		for _, b := range f.Blocks {
+			for _, in := range b.Instrs {
+				for _, op := range in.Operands(nil) {
+					if g, ok := (*op).(*ssa.Global); ok && cand[g] {
+						if ia, ok := in.(*ssa.IndexAddr); !ok || !elemLoadsOnly(ia) {
+							delete(cand, g)
+						}
+					}
+				}
+			}
+		}
+	}
+	if initFn == nil {
+		return t
+	}
+	// a composite literal (and each nested row) is built in a temporary and copied to its place in one store: the
+	// temporary stands for that place
+	type place struct {
+		key string
+		g   *ssa.Global
+	}
+	tmpOf := map[*ssa.Alloc]place{}
+	var key func(a ssa.Value) (string, *ssa.Global)
+	key = func(a ssa.Value) (string, *ssa.Global) {
+		switch x := a.(type) {
+		case *ssa.Alloc:
+			if p, ok := tmpOf[x]; ok {
+				return p.key, p.g
+			}
+			return "", nil
+		case *ssa.Global:
+			if cand[x] {
+				return x.Name(), x
+			}
+			return "", nil
+		case *ssa.IndexAddr:
+			k, ok := x.Index.(*ssa.Const)
+			if !ok {
+				return "", nil
+			}
+			base, g := key(x.X)
+			if g == nil {
+				return "", nil
+			}
+			return fmt.Sprintf("%s[%d]", base, k.Int64()), g
+		}
+		return "", nil
+	}
+	copyOf := func(st *ssa.Store) *ssa.Alloc { // *place = *tmp
+		if u, ok := st.Val.(*ssa.UnOp); ok && u.Op == token.MUL {
+			if al, ok := u.X.(*ssa.Alloc); ok {
+				return al
+			}
+		}
+		return nil
+	}
+	for changed := true; changed; {
+		changed = false
+		for _, b := range initFn.Blocks {
+			for _, in := range b.Instrs {
+				st, ok := in.(*ssa.Store)
+				if !ok {
+					continue
+				}
+				if al := copyOf(st); al != nil {
+					if _, done := tmpOf[al]; !done {
+						if k, g := key(st.Addr); g != nil {
+							tmpOf[al] = place{k, g}
+							changed = true
+						}
+					}
+				}
+			}
+		}
+	}
+	for _, b := range initFn.Blocks {
+		for _, in := range b.Instrs {
+			st, ok := in.(*ssa.Store)
+			if !ok {
+				continue
+			}
+			k, g := key(st.Addr)
+			if g == nil || !cand[g] {
+				continue
+			}
+			if al := copyOf(st); al != nil {
+				if _, isTmp := tmpOf[al]; isTmp {
+					continue // the copy of a finished literal (or row) to its place
+				}
+			}
+			kc, ok := st.Val.(*ssa.Const)
+			if !ok || kc.Value == nil {
+				delete(cand, g) // initialised with something computed
+				continue
+			}
+			if kc.Value.Kind() == constant.Bool {
+				t.vals[k] = boolVal(constant.BoolVal(kc.Value))
+			} else {
+				t.vals[k] = intVal(kc.Int64())
+			}
+		}
+	}
+	for g := range cand {
+		t.names[g.Name()] = true
+	}
+	return t
+}
+
+// globalKey renders an element address of a package-level array with the VALUES of its indices where the path knows
+// them ("contribCond[2][1]"); "" when the address is not such an element.
+func (e *explorer) globalKey(st *exState, a ssa.Value) string {
+	switch x := a.(type) {
+	case *ssa.Global:
+		return x.Name()
+	case *ssa.IndexAddr:
+		base := e.globalKey(st, x.X)
+		if base == "" {
+			return ""
+		}
+		iv := e.val(st, x.Index)
+		if iv.abs.k == aInt {
+			return fmt.Sprintf("%s[%d]", base, iv.abs.i)
+		}
+		return base + "[" + iv.expr + "]"
+	}
+	return ""
 }
